@@ -423,12 +423,23 @@ def _quick_configs():
                         if L > 2 and rheo in ('cpl', 'ctl'):
                             pass
                         cfgs.append({'given': core + extra + orb + spin + (['obliquity'] if obl else []), 'rheology': rheo, 'max_tidal_order_l': L, 'eccentricity_truncation_lvl': N, 'use_obliquity': obl})
+    # rheology inputs (Andrade alpha, zeta) and the dictionary front ends
+    for orb in (['orbital_frequency'], ['orbital_period']):
+        cfgs.append({'given': core + ['viscosity', 'shear_modulus', 'spin_frequency', 'obliquity'] + orb, 'rheology': 'andrade', 'cc_inputs': True, 'max_tidal_order_l': 2, 'eccentricity_truncation_lvl': 2, 'use_obliquity': True})
+    for rheo, extra in (('cpl', ['fixed_k2', 'fixed_q']), ('maxwell', ['viscosity', 'shear_modulus', 'tidal_scale'])):
+        for spin in (['spin_frequency'], ['spin_period'], []):
+            cfgs.append({'via': 'dict', 'given': core + extra + ['orbital_frequency'] + spin + ['obliquity'], 'rheology': rheo, 'max_tidal_order_l': 2, 'eccentricity_truncation_lvl': 2, 'use_obliquity': True})
     pairs = ['radii', 'masses', 'gravities', 'densities', 'mois']
     for rheo, extra in (('maxwell', ['viscosities', 'shear_moduli']), ('cpl', ['fixed_k2s', 'fixed_qs']), ('maxwell', ['viscosities', 'shear_moduli', 'tidal_scales'])):
         for spin in (['spin_frequencies'], []):
             for obl in (True, False):
                 cfgs.append({'dual': True, 'given_pairs': pairs + extra + spin + (['obliquities'] if obl else []), 'rheology': rheo, 'max_tidal_order_l': 2, 'eccentricity_truncation_lvl': 2,
                              'use_obliquity': obl})
+    cfgs.append({'dual': True, 'given_pairs': pairs + ['viscosities', 'shear_moduli', 'spin_frequencies', 'obliquities'], 'rheology': 'andrade', 'cc_inputs': True, 'max_tidal_order_l': 2,
+                 'eccentricity_truncation_lvl': 2, 'use_obliquity': True})
+    for rheo, extra in (('maxwell', ['viscosities', 'shear_moduli']), ('cpl', ['fixed_k2s', 'fixed_qs'])):
+        cfgs.append({'dual': True, 'via': 'dict', 'given_pairs': pairs + extra + ['spin_frequencies', 'obliquities', 'tidal_scales'], 'rheology': rheo, 'max_tidal_order_l': 2,
+                     'eccentricity_truncation_lvl': 2, 'use_obliquity': True})
     return cfgs
 
 
@@ -448,7 +459,7 @@ def job_quick_api(chunk, nchunks):
     results, agg, uncovered = [], {}, {}
     for rec in out:
         c = rec['config']
-        tag = ('dual ' if c.get('dual') else 'single ') + '%s l<=%d N=%d given=%s' % (c['rheology'], c['max_tidal_order_l'], c['eccentricity_truncation_lvl'],
+        tag = ('dual ' if c.get('dual') else 'single ') + ('(dict front end) ' if c.get('via') == 'dict' else '') + ('(rheology inputs) ' if c.get('cc_inputs') else '') + '%s l<=%d N=%d given=%s' % (c['rheology'], c['max_tidal_order_l'], c['eccentricity_truncation_lvl'],
                                                                                      ','.join(x for x in c.get('given', c.get('given_pairs', [])) if x not in ('host_mass', 'target_radius', 'target_mass', 'target_gravity', 'target_density', 'target_moi', 'radii', 'masses', 'gravities', 'densities', 'mois')))
         if 'error' in rec:
             results.append(discharge(Obligation('quick_tides %s: executes' % tag, z3.BoolVal(False), [], with_axioms=False, with_dens=False,
